@@ -490,7 +490,7 @@ func (rtcmHandler *Handler) GetMessage(bitStream []byte) (*Message, error) {
 // getTimeDisplayFromTimestamp gets a printable version of the time from the
 // timestamp.  If that provokes an error, BOTH the string and the error
 // are returned.
-func (rtcmHandler Handler) getTimeDisplayFromTimestamp(messageType int, timestamp uint) (string, error) {
+func (rtcmHandler *Handler) getTimeDisplayFromTimestamp(messageType int, timestamp uint) (string, error) {
 
 	result := "Time "
 
@@ -507,7 +507,7 @@ func (rtcmHandler Handler) getTimeDisplayFromTimestamp(messageType int, timestam
 	return result, nil
 }
 
-func (rtcmHandler Handler) getStartTimeDisplay(messageType int, timestamp uint) string {
+func (rtcmHandler *Handler) getStartTimeDisplay(messageType int, timestamp uint) string {
 
 	constellation := utils.GetConstellation(messageType)
 
@@ -804,7 +804,7 @@ func (rtcmHandler *Handler) getUTCFromGalileoTime(timestamp uint) (time.Time, er
 	timeFromTimestamp, newStartOfWeek, err := getUTCFromTimestamp(
 		timestamp,
 		rtcmHandler.timestampFromPreviousGalileoMessage,
-		rtcmHandler.startOfGPSWeek)
+		rtcmHandler.startOfGalileoWeek)
 
 	if err != nil {
 		return timeFromTimestamp, err
